@@ -1,6 +1,6 @@
 //! C08 — run-time errors are detected, classified, and leave the interpreter usable.
 use crate::ast::*;
-use crate::faults::{fault_form, prelude, probes, CONTEXTS_C08, KINDS};
+use crate::faults::{fault_form, prelude, probes, CONTEXTS_C08, CONTEXTS_C08_ONLY, KINDS};
 use crate::gen::{Gen, GenCfg};
 use crate::progcheck::{compare, obs_text, program_text, run_sut, Cmp};
 use crate::runner::{Chooser, Ctx, Report};
@@ -164,7 +164,7 @@ pub fn run(ctx: &Ctx) {
          happen after it; probes afterwards. Oracle: reference evaluator: error kind at the faulting form, tick trace up to \
          the fault, all later forms. Additionally the same 8 kinds inside a procedure exported by a user library (registered source or .sld \
          file), called directly / in operand position / as a tail call / through apply, with and without a program variable \
-         of the name the library procedure finds unbound (oracle: reference module system). Every kind x context skeleton is covered exhaustively with 40 random embeddings each. \
+         of the name the library procedure finds unbound (oracle: reference module system). Context `loop`: the fault happens in the 1st-5th iteration of a self tail-calling loop defined by an earlier form (for arity faults also as the tail call of the loop to itself with a wrong argument count). Every kind x context skeleton is covered exhaustively with 40 random embeddings each. \
          Non-trivial = context other than direct, or effects before the fault that a later form observes.",
     );
     ctx.random("user-library", ctx.tier.pick(2_000, 10_000), 60, user_library_case);
@@ -173,7 +173,7 @@ pub fn run(ctx: &Ctx) {
     let depth = ctx.tier.pick(3, 5);
     // every skeleton, `per` random embeddings each: the skeleton index is taken from the case number
     for (ki, kind) in KINDS.iter().enumerate() {
-        for (ci, context) in CONTEXTS_C08.iter().enumerate() {
+        for (ci, context) in CONTEXTS_C08.iter().chain(CONTEXTS_C08_ONLY.iter()).enumerate() {
             let sub = format!("{}@{}", kind, context);
             let _ = (ki, ci, n);
             ctx.random(&sub, per, 500, |ch: &mut Chooser| judge(&fault_program(ch, kind, context, depth)));
